@@ -221,7 +221,7 @@ fn run_case(ctx: &Ctx, case: &Case) -> Outcome {
                 match ev {
                     Ev::Paused(i, name) => {
                         assert_eq!(i, id, "only the granted task runs");
-                        if name == "zone:resolve:after_store_get" && !upsert_seen {
+                        if (name == "zone:resolve:after_store_get" || name == "zone:resolve:after_store_miss") && !upsert_seen {
                             lookup_read_before_upsert = true;
                         }
                         if name == "zone:insert:after_upsert" {
